@@ -219,6 +219,15 @@ def run(tier, seed):
     st = par.pmap(work, cs)
     check_direct(st)
     policy_label(st)
+    # real resolver and real sockets for the forms that can be exercised on loopback without a name service
+    vcases = []
+    forms = [['-n', '--skip-rate-test', '-t', '1', '127.0.0.1:{port}'], ['-n', '--skip-rate-test', '-t', '1', '-p', '{port}', '127.0.0.1'],
+             ['-n', '--skip-rate-test', '-t', '1', '-4', '127.0.0.1:{port}'], ['-n', '--skip-rate-test', '-t', '1', '-46', '-j', '127.0.0.1:{port}'],
+             ['-n', '--skip-rate-test', '-t', '1', '-64', '127.0.0.1:{port}'], ['-n', '--skip-rate-test', '-t', '1', '-6', '127.0.0.1:{port}'],
+             ['-n', '--skip-rate-test', '-t', '1', '-p', '22', '-j', '127.0.0.1:{port}'], ['-n', '--skip-rate-test', '-t', '1', '-p', '{port}', '-j', '127.0.0.1']]
+    for f in forms:
+        vcases.append({'label': ' '.join(f), 'opts': f, 'make': (lambda: P.Server())})
+    validated = H.validate_traces(vcases, st)
     return evidence.finish(
         PID, tier, seed, st, t0,
         rule='hosts %s x ports {absent} + %s + invalid %s x documented spellings (bare, host:port, [v6], [v6]:port) x source {argv, targets file, '
@@ -226,7 +235,7 @@ def run(tier, seed):
              'JSON; direct calls of the target parser; policy-mode label' % (
                  [h for _k, h in HOSTS], PORTS_OK, PORTS_BAD, POPTS, list(FAMILY_OPTS), RESOLVER, 'full product' if tier != 'quick' else 'every 3rd combination'),
         assumptions=['an explicit port in the target wins over -p (the port option is the default)', 'servers exist at every address the resolver may return'],
-        exhaustive=(tier != 'quick'), extra={'cases': len(cs)})
+        exhaustive=(tier != 'quick'), traces_validated=validated, extra={'cases': len(cs)})
 
 
 def replay(path):
